@@ -70,13 +70,27 @@ def main():
         print("%-40s %-9s %-11s %5.1fs %s" % (m["id"], m["kind"], outcome, time.time() - t0, detail[:150]), flush=True)
     # evidence files were rewritten against the scratch copy: restore them from the real tree for the props touched
     bad = [r for r in results if r[2] not in ("OK",)]
+    if filt:
+        # a filtered run merges its rows into the existing table instead of replacing it
+        keep = []
+        done = {r[0] for r in results}
+        try:
+            for l in open(os.path.join(HERE, "RESULTS.md")):
+                if l.startswith("| ") and not l.startswith("| id |"):
+                    c = [x.strip() for x in l.strip().strip("|").split("|")]
+                    if c[0] not in done and len(c) >= 3:
+                        keep.append((c[0], c[1], c[2], c[3] if len(c) > 3 else ""))
+        except OSError:
+            pass
+        results = keep + results
+        bad = [r for r in results if r[2] not in ("OK",)]
     with open(os.path.join(HERE, "RESULTS.md"), "w") as f:
         f.write("# selftest results (%s)\n\n%d entries, %d not OK\n\n| id | kind | outcome | detail |\n|---|---|---|---|\n" %
                 (time.strftime("%Y-%m-%d %H:%M"), len(results), len(bad)))
         for r in results:
             f.write("| %s | %s | %s | %s |\n" % (r[0], r[1], r[2], r[3].replace("|", "/")[:220]))
     print("%d entries, %d not OK" % (len(results), len(bad)))
-    sys.exit(1 if bad else 0)
+    sys.exit(1 if [r for r in bad if not filt or any(f in r[0] for f in filt)] else 0)
 
 
 if __name__ == "__main__":
